@@ -109,6 +109,29 @@ def oracle(case, outcome, ctx):
         if (st.breaks, st.joins) != (exp["breaks"], exp["joins"]):
             ctx.violation("counts-change-when-output-scaffolds-share-a-name", f"breaks/joins {(st.breaks, st.joins)} vs {(exp['breaks'], exp['joins'])}\ninput={case['input']}\noutput={outcome['out']}", stripped)
             return
+        # every contig a scaffold of its own: every input adjacency is broken, nothing is joined, and with one
+        # assembly prefix in, the Primary entry of the per-assembly report says exactly that
+        from tola.assembly.fragment import Fragment
+
+        alone = Assembly("alone")
+        for s in in_scs:
+            for r in s.rows:
+                if isinstance(r, Fragment):
+                    alone.add_scaffold(Scaffold(f"alone_{len(alone.scaffolds)}", rows=[r]))
+        st = AssemblyStats()
+        st.input_assembly = Assembly("in", scaffolds=in_scs)
+        st.make_stats({None: alone})
+        ctx.count("metamorphic:every-contig-alone")
+        if st.joins != 0 or st.breaks != exp["breaks"] + len(ref["in"] & ref["out"]):
+            ctx.violation("every-contig-alone:totals", f"breaks/joins {(st.breaks, st.joins)}; the input has {exp['breaks'] + len(ref['in'] & ref['out'])} adjacencies\ninput={case['input']}", stripped)
+            return
+        firsts = [next(s.fragments(), None) for s in in_scs]
+        if st.breaks and not any(f is not None and re.match(r"[A-Za-z]+\d+_", f.name) for f in firsts):
+            ctx.count("metamorphic:every-contig-alone:primary-entry-checked")
+            ent = st.per_assembly_stats.get("Primary")
+            if ent != {"manual_breaks": st.breaks, "manual_joins": 0}:
+                ctx.violation("every-contig-alone:primary-entry-missing-or-differs", f"{st.breaks} breaks, no joins, but per-assembly report = {st.per_assembly_stats}\ninput={case['input']}", stripped)
+                return
         # the same Scaffold objects counted, edited, counted again: the second count is that of the edited rows
         if len(in_scs) >= 2 and in_scs[0].rows and in_scs[1].rows:
             a_, b_ = in_scs[0], in_scs[1]
